@@ -54,6 +54,11 @@ def evaluate(req, L=None):
     """
     L = L or Lib()
     spec = OPS[req["op"]]
+    if req.get("fresh_process", True):
+        from . import seams
+        seams.pin_randomness()
+        if not getattr(seams, "_clock", None):
+            seams._clock = seams.SimClock().install()
     try:
         vals = [C.rebuild(c) for c in req["args"]] + [C.rebuild(c) for _, c in req["kw"]]
     except C.Unrebuildable as e:
